@@ -1898,7 +1898,7 @@ pub fn run(args: &Args) {
     // C14's region-level stream is judged by the allocator / tracker oracles alone; C10's stream
     // is about the images
     out.mute_hist = focus == "c14" || focus == "c10";
-    let n = if args.thorough { 1500 } else { 120 };
+    let n = if args.thorough { 600 } else { 120 };
     let only: Option<usize> = args.extra.iter().position(|a| a == "--only-case").and_then(|i| args.extra.get(i + 1)).and_then(|x| x.parse().ok());
     for case_index in 0..n {
         let mut r = rng.fork();
